@@ -179,7 +179,7 @@ def lexDbref1 (ln : Nat) (line : List Char) : W LexItem :=
   let (chain, e1) := fStr ln line 12 13
   let (sb, e2) := fIsize ln line 14 18
   let (ib, e3) := charW ln line 18
-  let (se, e4) := fIsize ln line 21 24
+  let (se, e4) := fIsize ln line 20 24
   let (ie, e5) := charW ln line 24
   let (db, e6) := fStr ln line 26 32
   let (id, e7) := fStr ln line 47 67
